@@ -203,6 +203,8 @@ func (prw *PatternRouterWatcher) UpdateDesc(desc *bridgedesc.Target) {
 		return
 	}
 
+	verifYield("pattern:update:after-closed-check")
+
 	routes := buildPatternRoutes(desc, prw.logger)
 	prw.pr.routes.addTarget(desc, routes)
 }
@@ -217,6 +219,8 @@ func (prw *PatternRouterWatcher) Close() {
 	if !prw.closed.CompareAndSwap(false, true) {
 		panic("grpcbridge: PatternRouterWatcher.Close() called multiple times")
 	}
+
+	verifYield("pattern:close:after-flip")
 
 	// Fully remove the target's routes, only then mark the watcher as closed.
 	prw.pr.routes.removeTarget(prw.target)
